@@ -92,6 +92,10 @@ func ObjV(o *Obj) Value { return Value{Kind: Object, O: o} }
 type Prop struct {
 	V    Value
 	Enum bool
+	// Locked: [[Writable]] and [[Configurable]] are false. [[DefineOwnProperty]]
+	// with {value, true, true, true} and [[Delete]] are then rejected (8.12.9 step
+	// 7.a / 8.12.7 step 4) — silently, since 15.12.2 calls them with Throw false.
+	Locked bool
 }
 
 // Obj is an ECMAScript object: [[Class]], [[Prototype]], own data properties in
@@ -198,6 +202,9 @@ func (o *Obj) Put(k S16, v Value) { o.Define(k, v, true) }
 // Define is Put with an explicit [[Enumerable]].
 func (o *Obj) Define(k S16, v Value, enum bool) {
 	if p, ok := o.Props[k]; ok {
+		if p.Locked {
+			return
+		}
 		p.V = v
 		p.Enum = enum
 		return
@@ -213,7 +220,7 @@ func (o *Obj) Define(k S16, v Value, enum bool) {
 
 // Delete is [[Delete]] of a configurable own property (length is untouched).
 func (o *Obj) Delete(k S16) {
-	if _, ok := o.Props[k]; !ok {
+	if p, ok := o.Props[k]; !ok || p.Locked {
 		return
 	}
 	delete(o.Props, k)
@@ -426,4 +433,13 @@ func NumCanon(f float64) string {
 		return "NaN"
 	}
 	return fmt.Sprintf("%016x(%s)", math.Float64bits(f), strconv.FormatFloat(f, 'g', -1, 64))
+}
+
+// Lock redefines own property k as {value: v, writable: false, enumerable: true,
+// configurable: false} (what Object.defineProperty does on a configurable one).
+func (o *Obj) Lock(k S16, v Value) {
+	o.Define(k, v, true)
+	if p, ok := o.Props[k]; ok {
+		p.Locked = true
+	}
 }
